@@ -132,6 +132,7 @@ pub fn check(prop: P, case: &Case, cfg: &RunCfg, order: (usize, u64, u32), acc: 
         Outcome::Deadlock => acc.count("result_deadlock"),
         Outcome::Horizon => acc.count("result_horizon"),
     }
+    acc.sample(|| json!({"universe": case.u.describe(&case.p), "configuration": format!("{:?}", cfg.runtime), "hints": format!("{:?}/{:?}", cfg.hint_override, cfg.hint_mask), "result": res.outcome.short(), "learnt_clauses": nl}));
     let v = |sig: String, what: String, obs: String| {
         mk_violation(prop.id(), sig, what, case, &cfg, obs, order)
     };
@@ -969,6 +970,27 @@ fn check_c09(case: &Case, cfg: &RunCfg, sem: &Sem, res: &RunResult, order: (usiz
                     "cands-not-exactly-mentioned",
                     format!("conflict-free problem: candidates fetched for {gotn:?}, mentioned names are {want:?}"),
                 ));
+            }
+        }
+    }
+    // "each at most once per solver": a second solve of the same problem on the same solver must be
+    // served from the cache entirely
+    {
+        let mut session = Session::new(&case.u, cfg);
+        let first = session.solve(&case.p, CancelPlan::Never, vec![]);
+        if !matches!(first.outcome, Outcome::Panic(_)) {
+            let second = session.solve(&case.p, CancelPlan::Never, vec![]);
+            acc.evaluations += 2;
+            // (a second solve may take another path and fetch metadata the first one never asked for;
+            // what it must not do is repeat a request)
+            let asked: Vec<&Ev> = first.log.iter().filter(|e| matches!(e, Ev::Deps(_) | Ev::Cands(_))).collect();
+            if let Some(e) = second.log.iter().find(|e| matches!(e, Ev::Deps(_) | Ev::Cands(_)) && asked.contains(e)) {
+                acc.violation(v(
+                    "refetch-on-second-solve",
+                    format!("a second solve of the same problem on the same solver repeated a provider request: {e:?}"),
+                ));
+            } else if second.log.iter().all(|e| !matches!(e, Ev::Deps(_) | Ev::Cands(_))) {
+                acc.count("second_solves_served_from_cache");
             }
         }
     }
